@@ -433,6 +433,8 @@ def check_C01(tier: str, v: Verdict):
     _sample(v, recs)
     validate_traces(v, "Trace_Eval", EVAL_C01, recs, site_eval, what_fn=what_eval)
     large_scale(v, tier, ["T_Completes", "T_Counts", "T_Tp", "T_FpFn", "T_Lists", "T_Ambiguous", "T_Rq"], 101)
+    from .extras import extra_input_contract
+    extra_input_contract(v, tier)
     if tier == "thorough":
         good = next(r for r in recs if r["out"] == "ok" and r["res"]["tp"] >= 1)
         def corrupt(r):
